@@ -109,10 +109,7 @@ class C02(Prop):
     rule = ("cases: `frame dec` and `fs loop`/`fs calls` lines; strings: all of length<=3 (quick) / <=4 (thorough) over an 18-byte "
             "alphabet x all 2^(n-1) cut patterns x {fin, open}; grammar-built frame sequences (every known/H2/unknown type, all "
             "varint forms, length field +-1/2, truncation at every offset) x all cuts if <=9 bytes else random cuts, Pending "
-            "inserted, endings fin/open/reset; random call sequences; `fs calls` over r (poll_recv_data on a real "
-            "client::RequestStream over the scripted stream) and s (split()): DATA frames whose payload looks like frame headers, "
-            "every cut pattern of short strings and random cuts of longer bodies, s at every position of the call sequence, "
-            "judged by the RFC oracle; non-trivial = the implementation emitted at least one frame, "
+            "inserted, endings fin/open/reset; random call sequences; non-trivial = the implementation emitted at least one frame, "
             "data piece or error (not only `P`/`N`/bad-op)")
     trusted = ["bytes::Bytes split_to/advance semantics",
                "translator decision table H3.Gen.FrameDispatch (Frame::decode: frame type -> payload parser / Frame variant, the HTTP/2-reserved types, unknown = skipped) and H3.Gen.FrameErrCodes (arms of FrameDecoder::decode, got_frame_error), re-read from h3/src/proto/frame.rs, h3/src/frame.rs, h3/src/error/internal_error.rs on this run (any other shape of these functions is refused); tied to the model by H3.Lemmas.GenAgreeFrame (decode_agrees: H3.Frame.decode = the decoder written over the generated table, for every byte string), rebuilt on this run"]
@@ -298,5 +295,16 @@ class C02(Prop):
                     out.append(" ".join(w[:2] + [",".join(m)] + w[3:]))
         return out
 
+
+# second round (split()): appended here so that the class body above stays as it was
+C02.rule = C02.rule.replace("; non-trivial = ", "; `fs calls` over r (poll_recv_data on a real client::RequestStream over the scripted "
+                            "stream) and s (split()): DATA frames whose payload looks like frame headers, every cut pattern of short "
+                            "strings and random cuts of longer bodies, s at every position of the call sequence, judged by the RFC "
+                            "oracle; non-trivial = ")
+C02.level_text += ("; split() is the identity on the frame-layer state (buffer, end-of-stream flag, expected memo, remaining_data): "
+                   "call sequences with splits anywhere answer like the same sequences without them, also for the request-body "
+                   "reader poll_recv_data, whose frame-layer answers stay a prefix of the reference automaton's tokens")
+C02.level_note += ("; split() is reached through a real client::RequestStream (send_request over a one-stream scripted transport), "
+                   "the only public way to FrameStream::split")
 
 PROP = C02()
